@@ -77,7 +77,7 @@ CLAIMS = {
         "ref": "DESIGN.md §4 C05",
     },
     "C06": {
-        "technique": "Lean 4 theorems: bounded TopN = take N of the unbounded sorted result (refinement + truncation lemma); streamed LIMIT in the depth-first walker = prefix of the unlimited run (mutual structural induction over the tree under any plan + list-level prefix lemma) + exhaustive-N CLI runs",
+        "technique": "Lean 4 theorems: bounded TopN = take N of the unbounded sorted result (refinement + truncation lemma); streamed LIMIT in the depth-first and breadth-first walkers = prefix of the unlimited run (mutual structural induction over the tree / induction over the queue loop, under any plan, + list-level prefix lemma) + exhaustive-N CLI runs",
         "text": ("Theorems for every insertion history, every N ≥ 1 and every total preorder: the limited ordered result is "
                  "exactly the first N rows of the unlimited ordered result (ties resolved identically), so it has min(N, M) rows; "
                  "limit 0 builds the limitless buffer. Streamed path (no ORDER BY, no aggregate), for every tree, filter, depth window and N ≥ 1 "
@@ -85,8 +85,12 @@ CLAIMS = {
                  "pre-order, stopping at the limit (dfs_streamed_any_plan, no NoLimit hypothesis); whenever the unlimited search of a root "
                  "succeeds with M rows the search with limit N succeeds, reports exactly min(N, M) rows, and they are the first "
                  "min(N, M) chunks the unlimited search wrote, in the same order — the bytes on stdout are a prefix of the unlimited "
-                 "output (dfs_streamed_limit, dfs_streamed_limit_bytes); nothing is examined after the limit. Breadth-first streamed LIMIT, "
-                 "several roots and the footer are decided by correspondence and by the oracle against the unlimited run for every N in 1..M+2."),
+                 "output (dfs_streamed_limit, dfs_streamed_limit_bytes); nothing is examined after the limit. The same two theorems for the "
+                 "breadth-first walker (the default mode): visit_dir(root) plus the queue loop under any plan is check_file folded over "
+                 "the fuel-free level order, stopping at the limit, and the limited search reports the first min(N, M) rows of the "
+                 "unlimited breadth-first search (bfs_streamed_any_plan, bfs_streamed_limit; drain_reached: the queue is still drained "
+                 "after the limit but nothing is examined). "
+                 "Several roots and the footer are decided by correspondence and by the oracle against the unlimited run for every N in 1..M+2."),
         "ref": "DESIGN.md §4 C06",
     },
     "C07": {
